@@ -317,6 +317,50 @@ void run(size_t idx) {
 		g2.boundsSet = false;   // a default save recomputes the bounds
 		if (NiShape* rs = reloadShape(cp, re, false, c2)) checkAgainst(c2, re, rs, g2, true);
 	}
+	// second generation on the same, already saved object: fewer vertices, every per-vertex attribute set again, saved and read back
+	// (blocks that the first save created or sized, e.g. Oblivion's tangent-space extra data, have to follow the new count)
+	if (!skinnedVariant && nvEff >= 6 && nvEff <= 5000 && (idx / 6) % 3 == 1) {
+		R_phase("second-generation");
+		std::vector<uint16_t> del;
+		for (size_t i = 0; i < nvEff; i++)
+			if (rng.coin(4) || i + 1 == nvEff) del.push_back((uint16_t)i);
+		if (nvEff - del.size() >= 3) {
+			nif.DeleteVertsForShape(s, del);
+			s = nif.FindBlockByName<NiShape>("shape");
+			if (s && s->GetNumVertices() == nvEff - del.size()) {
+				nvEff -= del.size();
+				Ctx c3 = c;
+				c3.what += fmt(" [second generation: %zu vertices deleted after the first saves, attributes set again]", del.size());
+				R_caseDesc(c3.what);
+				Geo h;
+				h.verts = rv3(20.0f);
+				nif.SetVertsForShape(s, h.verts);
+				h.uvs.resize(nvEff);
+				for (auto& u : h.uvs) u = Vector2(rng.range(-2, 2), rng.range(-2, 2));
+				nif.SetUvsForShape(s, h.uvs);
+				if (g.hasNormals) {
+					h.normals = unit(); h.hasNormals = true; nif.SetNormalsForShape(s, h.normals);
+					h.tangents = unit(); h.bitangents = unit(); h.hasTangents = true;
+					nif.SetTangentsForShape(s, h.tangents);
+					nif.SetBitangentsForShape(s, h.bitangents);
+				}
+				h.colors.resize(nvEff);
+				for (auto& col : h.colors) col = Color4(rng.unit(), rng.unit(), rng.unit(), rng.unit());
+				h.hasColors = true;
+				nif.SetColorsForShape(s, h.colors);
+				if (g.hasEye) { h.eye.resize(nvEff); for (auto& e : h.eye) e = rng.range(-1, 1); h.hasEye = true; NifFile::SetEyeDataForShape(s, h.eye); }
+				s->GetTriangles(h.tris);   // what a deletion leaves of the triangles is C09's subject
+				h.trisAsMultiset = g.trisAsMultiset;
+				checkLengths(c3, nif, s, "second generation");
+				checkAgainst(c3, nif, s, h, false);
+				NifFile re;
+				Ctx c4 = c3;
+				c4.what += " [raw save+load]";
+				if (NiShape* rs = reloadShape(nif, re, true, c4)) { checkAgainst(c4, re, rs, h, true); checkLengths(c4, re, rs, "reload"); }
+				R_stat("second_generation_models");
+			}
+		}
+	}
 	R_cover(c.what);
 	if (idx % 97 == 0) R_sample(fmt("{\"version\":\"%s\",\"vertices_given\":%d,\"vertices_stored\":%zu,\"triangles\":%zu,\"shape_type\":\"%s\"}", v.n, nvReq, nvEff, g.tris.size(), s->GetBlockName()));
 }
@@ -326,6 +370,6 @@ MonReg reg({"C13", "exploration",
 			"with/without normals x seeds. Per case: CreateShapeFromData, then every getter compared with the given data (exact in memory; after raw save+load: positions exact or "
 			"half-rounded where the vertex descriptor says half, BSTriShape UVs half-rounded, byte-quantised normals/tangents/colours within 1/255, eye data and bitangent.x exact), then "
 			"each setter (positions, UVs, normals, tangents, bitangents, colours, eye data, triangles, bounds) followed by all getters: value within the storage quantisation, every "
-			"per-vertex array keeps the vertex count; again after raw and after default save+load. Over-long inputs must be clamped to the 16-bit limits. Non-trivial = every case.",
+			"per-vertex array keeps the vertex count; again after raw and after default save+load; a third of the unskinned models then go through a second generation on the same, already saved object (random vertices deleted, every attribute set again for the smaller count, getters and raw save+load compared). Over-long inputs must be clamped to the 16-bit limits. Non-trivial = every case.",
 			[] { return (size_t)360 * (g_cfg.tier ? 24 : 2); }, run, 12, 300.0, false, false, nullptr});
 } // namespace
